@@ -18,6 +18,7 @@ R2Sdef_q_cyl_free == {0}
 R2Sdef_q_cylp_free == {0}
 R2Sdef_q_cyl_ren == {36, 41, 50, 64, 81}
 R2Sdef_q_cylp_ren == {36, 41, 50, 64, 81}
+R2Sdef_q_cylp_ren9 == {36, 41, 50, 64, 81}
 R2Sdef_t_rad_free == {0}
 R2Sdef_t_cyl_free == {0}
 R2Sdef_t_cylp_free == {0}
